@@ -67,3 +67,58 @@ def rabin_fingerprint(data):
     # Although not mentioned in the Avro specification, the Java
     # implementation gives fingerprint bytes in little-endian order
     return result.to_bytes(length=8, byteorder="little", signed=False).hex()
+
+
+def default_datum(schema, default, named_schemas):
+    """The value that the JSON default of a field denotes for the field's type:
+    numbers of float/double fields are floats, bytes and fixed are the bytes of
+    the string's code points, the default of a union belongs to its first
+    branch, and a record is completed with the defaults of the fields the JSON
+    object leaves out. Containers are built anew, so callers never share (or
+    expose) the schema's own objects. ``named_schemas`` maps full names to
+    parsed definitions."""
+    if isinstance(schema, list):
+        return default_datum(schema[0], default, named_schemas) if schema else default
+    if not isinstance(schema, dict):
+        if schema not in named_schemas:
+            schema = {"type": schema}
+        else:
+            schema = named_schemas[schema]
+    record_type = schema["type"]
+    if "logicalType" in schema:
+        return default
+    if record_type in ("float", "double"):
+        if isinstance(default, int) and not isinstance(default, bool):
+            return float(default)
+    elif record_type in ("bytes", "fixed"):
+        if isinstance(default, str):
+            return default.encode("iso-8859-1")
+    elif record_type == "array":
+        if isinstance(default, list):
+            return [
+                default_datum(schema["items"], item, named_schemas) for item in default
+            ]
+    elif record_type == "map":
+        if isinstance(default, dict):
+            return {
+                key: default_datum(schema["values"], value, named_schemas)
+                for key, value in default.items()
+            }
+    elif record_type in ("record", "error"):
+        if isinstance(default, dict):
+            record = {}
+            for field in schema["fields"]:
+                if field["name"] in default:
+                    value = default[field["name"]]
+                elif "default" in field:
+                    value = field["default"]
+                else:
+                    continue
+                record[field["name"]] = default_datum(
+                    field["type"], value, named_schemas
+                )
+            return record
+    elif isinstance(record_type, (list, dict)) or record_type in named_schemas:
+        # {"type": <union, nested definition or name>}
+        return default_datum(record_type, default, named_schemas)
+    return default
